@@ -48,6 +48,7 @@ FLAGS = st.fixed_dictionaries({
     "wait_tasks_timeout": st.one_of(st.none(), st.sampled_from([0, 0.0, 0.5, 2.0, 30.0])),
     "max_fails": st.one_of(st.none(), st.integers(-1, 5)),
     "workers": st.one_of(st.none(), st.integers(1, 4)),
+    "via_api": st.sampled_from([False, False, True]),     # taskiq.api.run_receiver_task instead of the command line
 })
 
 
@@ -97,7 +98,55 @@ def receiver_kwargs(flags: Dict[str, Any]) -> Dict[str, Any]:
     return got
 
 
+def api_receiver_kwargs(flags: Dict[str, Any]) -> Dict[str, Any]:
+    """The programmatic way to start a worker: taskiq.api.run_receiver_task(broker, ...) with the same settings."""
+    from taskiq.acks import AcknowledgeType
+    from taskiq.api import run_receiver_task
+
+    class Once(RecordingReceiver):
+        async def listen(self, finish_event: asyncio.Event) -> None:  # type: ignore[override]
+            raise asyncio.CancelledError      # ends run_receiver_task's restart loop
+
+    kw: Dict[str, Any] = {}
+    if flags.get("ack_type"):
+        kw["ack_time"] = AcknowledgeType(flags["ack_type"].lower())
+    for name in ("max_async_tasks", "max_prefetch"):
+        if flags.get(name) is not None:
+            kw[name] = flags[name]
+    if flags.get("no_parse"):
+        kw["validate_params"] = False
+    if flags.get("no_propagate_errors"):
+        kw["propagate_exceptions"] = False
+    RECORDED.clear()
+
+    async def go() -> None:
+        try:
+            await run_receiver_task(broker_factory(), receiver_cls=Once, **kw)
+        except asyncio.CancelledError:
+            pass
+
+    asyncio.run(go())
+    if len(RECORDED) != 1:
+        raise AssertionError(f"run_receiver_task built {len(RECORDED)} receivers")
+    got = dict(RECORDED[0])
+    ack = got.get("ack_type")
+    got["ack_type"] = getattr(ack, "value", ack) or "when_saved"
+    return got
+
+
 def check(flags: Dict[str, Any], keys: List[str], clause: str, out: Any) -> None:
+    if flags.get("via_api"):
+        keys = [k for k in keys if k in ("ack_type", "max_async_tasks", "max_prefetch", "validate_params", "propagate_exceptions")]
+        try:
+            got = api_receiver_kwargs(flags)
+        except BaseException as e:  # noqa: BLE001
+            out.add(clause, f"run_receiver_task(...) with {flags}: failed with {type(e).__name__}: {e}")
+            return
+        exp = expected(flags)
+        for k in keys:
+            if got.get(k) != exp[k] or type(got.get(k)) is not type(exp[k]):
+                out.add(clause, f"run_receiver_task(... {flags}) builds the receiver with {k}={got.get(k)!r}, the arguments mean {exp[k]!r}")
+        return
     try:
         got = receiver_kwargs(flags)
     except BaseException as e:  # noqa: BLE001
